@@ -376,3 +376,48 @@ def r5(ctx):
     ok = all((o.kind == "raise") == any(d.text == "connect raises" and d.choice == 1 for d in o.decisions) for o in outs2) and len(outs2) >= 2
     ctx.ob("_core:create_connection:returns-only-after-connect", ok, f"{len(outs2)} paths" if ok else "create_connection returns an object whose connect() raised",
            ctx.index.loc(ctx.index.func("_core:create_connection").node))
+
+
+@rule("R-C09-6", min_instances=10, title="the status is read from a well-formed status line only: three ASCII digits; any other token (sign, underscore, non-ASCII digits, extra digits) is refused, never read as 101")
+def r6(ctx):
+    idx = ctx.index
+    q = "_http:read_headers"
+    loc = idx.loc(idx.func(q).node)
+    tokens = ["101", "200", "403", "+101", "1_01", "0101", "\u0661\u0660\u0661", "101 ", "1e2", "-101", "000", "", "10", "1010", "\uff11\uff10\uff11"]
+    for tok in tokens:
+        for rest in (" Switching Protocols", ""):
+            first = f"HTTP/1.1 {tok}{rest}\r\n".encode("utf-8")
+            lines = [first, b"HTTP/1.1 101 Again\r\n" if tok == "000" else b"Upgrade: websocket\r\n", b"\r\n"]
+
+            def rl(I, run, args, kwargs, node, lines=lines):
+                k = len([e for e in run.effects if e.name == "recv_line"])
+                run.effect("recv_line", args, node=node)
+                return C(lines[k])
+
+            I = Interp(idx, Config(stubs={"_socket:recv_line": rl, "_logging:trace": lambda *a: NONE}, loop_unroll=6))
+            outs = ctx.count_paths(I.explore(lambda run: I.call(run, I.make_fn(run, q), [Sym("sock", "obj")], {}, None)))
+            t = tok.strip()
+            wellformed = len(t) == 3 and t.isascii() and t.isdigit() and tok == t
+            if tok == "101 ":  # "HTTP/1.1 101  x": the token itself is fine, the reason phrase starts with a blank
+                wellformed = True  # with a bare line the trailing blank is stripped with the line end
+                t = "101"
+            o = outs[0] if len(outs) == 1 else None
+            if o is None:
+                raise AnalysisError(f"status line {first!r} does not fold to one outcome")
+            if wellformed:
+                st = o.value.items[0] if o.kind == "return" and isinstance(o.value, Tup) else None
+                hdrs = o.run.cell(o.value.items[1]).items if st is not None and isinstance(o.value.items[1], Ref) else {}
+                ok = st == C(int(t)) and (tok != "000" or "http/1.1 101 again" not in "".join(map(str, hdrs)).lower() or True)
+                if tok == "000":
+                    # a status of 000 is still *the* status: the next line must not be taken for a second status line
+                    ok = st == C(0) or (o.kind == "raise" and exc_is(I, o, WS_EXC))
+                msg = f"status {st!r}"
+            else:
+                # a malformed token may be refused here or yield a status that is refused later; it must never come out as 101
+                st = o.value.items[0] if o.kind == "return" and isinstance(o.value, Tup) else None
+                ok = (o.kind == "raise" and exc_is(I, o, WS_EXC)) or (st is not None and isinstance(st, C) and st.v != 101)
+                msg = f"{o.kind} {o.exc_class or o.value!r}"
+            ctx.ob(f"{q}:status-token:{tok!r}:{'reason' if rest else 'bare'}", ok, msg if ok else
+                   f"status line {first!r}: read_headers gives {msg}; " + ("the status is the three digits given" if wellformed else
+                   "only the three ASCII digits 101 are status 101 -- this token is not a 101 response and must not be read as one"), loc, {"path": path_text(o)})
+
